@@ -16,6 +16,7 @@
  * Every input is copied into an exactly sized heap block; eav_t lives in fresh heap memory.
  */
 #include "common.h"
+#include <locale.h>
 #include <stdbool.h>
 #include <limits.h>
 #include <eav.h>
@@ -656,6 +657,9 @@ int main(void)
     static char obuf[1 << 16];
     setvbuf(stdout, obuf, _IOFBF, sizeof obuf);
     drv_install_handlers();
+    /* like any application (and the eav tool): the environment chooses the locale; the Python side runs a share of the batches under
+     * C.UTF-8, where <ctype.h> / <wctype.h> classifications and case mappings differ from the "C" locale */
+    setlocale(LC_ALL, "");
     while ((r = getline(&line, &cap, stdin)) > 0) {
         g_case++;
         g_stage = "parse";
